@@ -122,6 +122,16 @@ func randFrame(r *rand.Rand, v2 bool, signed bool) frame.Frame {
 
 func genC01(o *hx.Out, tier string) {
 	r := hx.NewRand(1)
+	// reading back: a frame equals what was written, whatever the same reader refused before it
+	{
+		md := shipped("minimal")
+		mdrw := defineDialect(o, "minimal", md)
+		for _, st := range refusedThenAccepted(r, md, mdrw, 30) {
+			for _, cs := range [][]hx.Chunk{one(st), splitRandom(r, st)} {
+				o.Add("read after a refused frame", hx.ReadAll(cs, mdrw, nil, nil), "fread", "minimal", "-", hx.ChunksText(cs))
+			}
+		}
+	}
 	n := 6000
 	if tier == "thorough" {
 		n = 200000
